@@ -305,8 +305,8 @@ unsafe impl Kernel<u8, i8, i32> for WasmInt8Kernel {
         depth: usize,
         _alpha: f32,
         beta: i32,
-        _a_quant: Option<QuantParams<u8>>,
-        _b_quant: Option<QuantParams<i8>>,
+        a_quant: Option<QuantParams<u8>>,
+        b_quant: Option<QuantParams<i8>>,
     ) {
         let a_data = match a {
             Lhs::Packed(data) => data,
@@ -327,8 +327,11 @@ unsafe impl Kernel<u8, i8, i32> for WasmInt8Kernel {
             used_cols,
             depth,
             beta != 0, // accumulate
-            a_meta.zero_points,
-            b_meta.zero_points,
+            packing::int8::tile_a_zero_points(a_meta.zero_points, a_quant.map(|q| q.zero_point)),
+            packing::int8::tile_b_zero_points_cast_u8(
+                b_meta.zero_points,
+                b_quant.map(|q| q.zero_point),
+            ),
             &a_meta.row_sums,
             &b_meta.col_sums,
             self.isa,
